@@ -322,6 +322,14 @@ def _same_ks(io, lean, tol):
     return io.get("raised") == lean.get("raised") and close_list(decl(io["ks"]), decl(lean["ks"]), tol)
 
 
+def _pad_close(xs, ys, tol):
+    """coefficient lists up to trailing zeros (Poly keeps no zero coefficient)"""
+    n = max(len(xs), len(ys))
+    xs = list(xs) + [F(0)] * (n - len(xs))
+    ys = list(ys) + [F(0)] * (n - len(ys))
+    return close_list(xs, ys, tol)
+
+
 def _critical(ks):
     """some |k| within MARGIN of 1 (a float-contaminated run may fall on either side)"""
     return any(abs(abs(k) - 1) < MARGIN for k in ks)
@@ -386,11 +394,11 @@ def compare(c, io, drv):
         ks = decl(m["ks"])
         if any(abs(1 - k * k) < F(1, 20) for k in ks):
             return out          # ill conditioned in floating point: not compared
-        if not close_list(decl(io["a"]), decl(m["a"]), TOL) or not close(dec(io["error"]), dec(m["error"]), TOL):
+        if not _pad_close(decl(io["a"]), decl(m["a"]), TOL) or not close(dec(io["error"]), dec(m["error"]), TOL):
             out.append(("model", "levinson_durbin numerator/error differ from model: %r %r" % (io["a"], io["error"])))
         if not close(dec(io["error"]), dec(s["error"]), TOL):
             out.append(("spec", "error %r is not r0*prod(1-k^2) = %r" % (io["error"], s["error"])))
-        if not close_list(decl(io["a"]), decl(s["a"]), TOL):
+        if not _pad_close(decl(io["a"]), decl(s["a"]), TOL):
             out.append(("spec", "levinson_durbin numerator is not the step-up of its reflection coefficients"))
         if ks and ks[-1] != 0 and not io["parcor"].get("err"):
             if not (io["parcor"]["raised"] is False and close_list(decl(io["parcor"]["ks"]), ks[::-1], TOL)):
